@@ -333,11 +333,25 @@ def resolver_resolve(
         if info_parameter:
             values[info_parameter] = __info
         try:
-            return serialize_result(func(__self, **values))
+            result = serialize_result(func(__self, **values))
         except Exception as error:
             if error_handler is None:
                 raise
             assert serialize_error is not None
             return serialize_error(error_handler(error, __self, __info, **kwargs))
+        if error_handler is not None and async_func:
+            # the error of an async resolver is raised when its result is awaited
+            return handle_async_error(result, __self, __info, kwargs)
+        return result
+
+    async_func = is_async(resolver.func)
+
+    async def handle_async_error(awaitable, __self, __info, kwargs):
+        try:
+            return await awaitable
+        except Exception as error:
+            assert error_handler is not None and serialize_error is not None
+            handled = serialize_error(error_handler(error, __self, __info, **kwargs))
+            return (await handled) if is_async(error_handler) else handled
 
     return resolve
